@@ -20,6 +20,12 @@ Subset
                argument (float dtypes -> all-zero float array, float32 storage is not rounded; int dtypes -> int
                array; any other argument is rejected); np.empty is modelled as np.zeros (reading an entry that was
                never written is outside the subset's meaning)
+  2-d stores : `A[i, d] = e`, `A[i, d] += e`, `A[i, d] /= n` -> `mset N A i d (..)`; the augmented forms read `mnth N A i d`
+               first; an int right operand of `/` is coerced with of_Z (true division).  The matrix may be read at other
+               rows in the same statement (`A[i, d] += A[k, d]`): every read refers to the array value before the store.
+               A store into an int matrix (MZ) is rejected.
+  returns    : a bare `return` (or falling off the end) of a function that stores into argument arrays returns the final
+               contents of those arrays (one array: the array itself; several: their tuple, in parameter order).
   mutation   : argument arrays the body stores into (`x[i] = ..`, `x[i] += ..`) are part of the result: a function that
                returns the value v returns (v, x, ..) (the final contents of the mutated arguments, in parameter order);
                a function that returns the tuple `a, b` returns the flat tuple (a, b, x, ..)
